@@ -148,7 +148,7 @@ func callSites(fn *ssa.Function, names ...string) []ssa.CallInstruction {
 	if fn == nil {
 		return nil
 	}
-	eachInstr(fn, func(in ssa.Instruction) {
+	eachInstrScope(fn, func(in ssa.Instruction) {
 		ci, ok := in.(ssa.CallInstruction)
 		if !ok {
 			return
@@ -163,6 +163,15 @@ func callSites(fn *ssa.Function, names ...string) []ssa.CallInstruction {
 	})
 	sortByPos(out)
 	return out
+}
+
+// eachInstrScope visits the instructions of fn and of its private helpers
+// (scopeOf): a block moved into a helper that only this function uses is still
+// part of what a rule about this function looks at.
+func eachInstrScope(fn *ssa.Function, f func(ssa.Instruction)) {
+	for _, g := range scopeOf(fn) {
+		eachInstr(g, f)
+	}
 }
 
 func allCalls(fn *ssa.Function) []ssa.CallInstruction {
@@ -925,6 +934,16 @@ func errEdges(call *ssa.Call, success bool) []Edge {
 		return nil
 	}
 	return condEdges(call.Parent(), func(cond ssa.Value) (bool, bool) {
+		// os.IsNotExist(err), errors.Is(err, X) ...: true only for a non-nil error
+		if pc, ok := cond.(*ssa.Call); ok && !success {
+			switch cname(pc) {
+			case "os.IsNotExist", "os.IsExist", "os.IsPermission", "os.IsTimeout", "errors.Is", "errors.As":
+				if len(pc.Call.Args) > 0 && evs[pc.Call.Args[0]] {
+					return true, false
+				}
+			}
+			return false, false
+		}
 		b, ok := cond.(*ssa.BinOp)
 		if !ok {
 			return false, false
@@ -1207,7 +1226,7 @@ func isFieldLoad(name string) func(ssa.Value) bool {
 // fieldStores returns the Store instructions in fn that write struct field "T.f".
 func fieldStores(fn *ssa.Function, name string) []*ssa.Store {
 	var out []*ssa.Store
-	eachInstr(fn, func(in ssa.Instruction) {
+	eachInstrScope(fn, func(in ssa.Instruction) {
 		st, ok := in.(*ssa.Store)
 		if !ok {
 			return
@@ -1226,7 +1245,7 @@ func fieldStores(fn *ssa.Function, name string) []*ssa.Store {
 // fieldLoads returns the load instructions in fn that read struct field "T.f".
 func fieldLoads(fn *ssa.Function, name string) []*ssa.UnOp {
 	var out []*ssa.UnOp
-	eachInstr(fn, func(in ssa.Instruction) {
+	eachInstrScope(fn, func(in ssa.Instruction) {
 		u, ok := in.(*ssa.UnOp)
 		if !ok || u.Op != token.MUL {
 			return
